@@ -97,6 +97,24 @@ CHECKS["C09"] = {
     "text": "For real finalized plans (fused/unfused, multi-output, reduction chains) and EVERY store state of every produced array (absent, completeness attribute missing, zero-dimensional, nchunks_initialized anywhere in [0, nchunks] - an over-approximation of every crash point at task and chunk-write granularity): an operation is skipped iff all its outputs are complete and not 0-d, create-arrays is never skipped, executed operations come in dependency order (both traversals agree), every executed operation reads only complete arrays or arrays whose producer runs earlier, a store that cannot report completeness is refused with NotImplementedError before the executor is entered (or never trusted), without resume nothing is skipped; array creation is open-or-create, never truncating.",
     "note": "store-state stub is the contract of the property; what Zarr reports for a half-written key and equality of values (C06) are outside.",
 }
+CHECKS["C02"] = {
+    "engine": "sx",
+    "technique": "bounded symbolic execution (z3): real construction, real DAG rewrite by every optimizer, evaluation of original and optimized real plans on abstract blocks; provenance equality",
+    "text": "For 15 compositions (chains, diamonds, repeated arguments, reductions over/under elementwise ops, mean, selections, concat/stack/unstack/repeat between elementwise ops, implicitly rechunked inputs, requested and shared intermediates) with symbolic geometry and for the default multiple-input optimizer (also with symbolic max_total_source_arrays / max_total_num_input_blocks incl. None), the legacy map-fusion optimizer, fuse-all and fuse-only: every element of every requested array has the same provenance (same source elements, argument positions, multiplicities) in the optimized real plan as in the unoptimized one; every requested array still has a producing operation; each operation's source_array_names equal its DAG predecessors and are readable.",
+    "note": _GEOM_NOTE + " Compositions beyond the catalogue and store targets (C11) are outside; that the fused closure pickles is outside.",
+}
+CHECKS["C18"] = {
+    "engine": "sx+z3",
+    "technique": "symbolic execution (z3) of convert_to_bytes on integers and of every discovered two-array entry point with symbolic Spec fields; QF_FP search generated from the function's AST whenever the string path multiplies floats",
+    "text": "(i) convert_to_bytes: every integer in [-1e30, 1e30] is returned unchanged or rejected iff negative; the unit table read off the current AST is decimal SI; rendered literals (integer part 0..120, fraction digits, 13 valid/invalid unit forms, whitespace) and literals just above 2**53 and 10**16 are interpreted exactly or rejected; if the string path goes through float arithmetic, a QF_FP query searches for an accepted-but-rounded literal (and proves exactness below 2**53). (ii) each of the 47 discovered two-array entry points (elementwise binaries, where, clip, concat, stack, matmul, tensordot, vecdot, isin, searchsorted, map_blocks, apply_gufunc, outer, operators, plan, store) rejects operands whose Specs differ in exactly one field (symbolic allowed_mem/reserved_mem, work_dir, compressor, executor, storage_options) with the spec ValueError unless no returned plan contains both operands, and accepts equal Specs; (iii) every operation built carries the Spec's allowed_mem and reserved_mem.",
+    "note": "entry points are discovered by calling the public API on metadata arrays; index arguments that are computed eagerly (take, x[array]) are exempt by the statement; intermediate_store objects outside. CrossHair was tried for string literals and is not used: its float() model raised an internal regex error (recorded in DESIGN.md).",
+}
+CHECKS["C19"] = {
+    "engine": "sx",
+    "technique": "symbolic execution (z3) of every discovered public entry point on metadata arrays under an explicit Spec with symbolic memory settings versus the default configuration",
+    "text": "For 80 one-array and 47 two-array public entry points: built under an explicit Spec (symbolic allowed_mem/reserved_mem with allowed-reserved >= 1e5; work_dir none/local/cloud; compressor auto/none; executor set) the expression is accepted exactly as under the default configuration (no helper array created without the operands' spec), records the same operation geometry (write chunks, task counts, fusability, shapes, chunks, dtypes), results carry the explicit Spec and every operation uses its allowed_mem/reserved_mem with projected memory including reserved memory; only a cloud work_dir changes the buffer-copy model.",
+    "note": "value equality across real stores/codecs is outside (C01 decides values for the recorded geometry); take() (eager index evaluation) is exempt.",
+}
 for p in PENDING:
     if p not in CHECKS:
         NOT_APPLICABLE[p] = "check not built yet in this revision (planned, see DESIGN.md §5)"
